@@ -26,7 +26,9 @@ MANIFEST = {
             "encoding and re-encoding gives the same ordered members (roundtrip_equal_partial / reserialize_identical_partial: "
             "118 of the 123 generated classes incl. Relationship, Sighting and both MarkingDefinition classes with the wrapped "
             "definition and the 2.0 per-instance precision of created, plain JSON input; the class list is recomputed by the "
-            "kernel each run; roundtrip_equal_parse_partial: the same at stix2.parse level for 86 entry-point classes); "
+            "kernel each run; roundtrip_equal_parse_partial: the same at stix2.parse level for 86 entry-point classes; "
+            "roundtrip_equal_bundle_partial: both Bundle classes, members parsed from their own dictionaries and stored as "
+            "objects of parse-covered classes -- 120 of 123 in all, not ObservedData x2 and 2.1 Indicator); "
             "the two encoders differ exactly on defaulted optionals; sort_keys/indent/compact/pretty are permutations of "
             "members (same JSON value); pretty keeps the top-level class order. Model tied to /repo by regenerated class "
             "tables and a correspondence run of serialize under every option; the property itself is evaluated on the real "
@@ -443,8 +445,9 @@ def check(run):
             hdr = ("From Coq Require Import List String.\nFrom V Require Import Base.UString Model.SchemaTypes "
                    "Proofs.C01LibInstance Gen.Tables.\nImport ListNotations. Open Scope string_scope.\n"
                    "Definition names (l : list ustring) : string := fold_right (fun x acc => append (show_ustr x) (append \" \" acc)) \"\" l.\n")
-            cov = common.coq_eval_lines("c01cov", hdr, ["names lib_proved_idsw", "names lib_unproved_ids"])
-            run.coverage["roundtrip_theorem_classes_proved"] = len(cov[0].split())
+            cov = common.coq_eval_lines("c01cov", hdr, ["names lib_proved_idsw", "names lib_unproved_ids", "names lib_bundle_ids"])
+            run.coverage["roundtrip_theorem_classes_proved"] = len(cov[0].split()) + len(cov[2].split())
+            run.coverage["roundtrip_theorem_classes_proved_by_bundle_theorem"] = cov[2].split()
             run.coverage["roundtrip_theorem_classes_unproved"] = cov[1].split()
         except RuntimeError as e:
             run.notes.append("could not evaluate lib_proved_ids: %s" % str(e)[-300:])
